@@ -467,6 +467,28 @@ def record_job(job):
     return traces, stats
 
 
+def shape_job(job):
+    """leg C of C01: one returned run of the real code per run shape enumerated by TLC (MC_ProcessQ): job = (seed, shapes)"""
+    import random
+    seed, shapes = job
+    rng = random.Random(seed)
+    out = []
+    for q in shapes:
+        kind = ("ideal" if q["ideal"] else "nonideal") + ("_iso" if q["iso"] else "_noniso")
+        for attempt in range(10):
+            sc = scenario(rng, kind=kind, mode="temp" if q["hasTperm"] else rng.choice(["vac", "press"]), prog_p=0.0)
+            sc["N"] = q["N"] if q["N"] < 4 else rng.choice([3, 4, 6])
+            sc.pop("want_prog", None)
+            if q["hasProg"]:
+                sc["want_prog"] = True
+            sc["shared_comp"] = pv.Composition(p=sc["x0"], type=sc["basis"])
+            tr, res = trace_process(rng, sc, with_std=False, with_ref=q["ideal"])
+            if tr is not None and res["outcome"] == "return":
+                out.append(tr)
+                break
+    return out
+
+
 def step0_twin(rng, ideal=True):
     """the isothermal and the non-isothermal model started from the same conditions: compare step 0"""
     sc = scenario(rng, kind="ideal_iso" if ideal else "nonideal_iso")
